@@ -51,7 +51,10 @@ type world struct {
 	epoch   int          // number of mutating ops so far
 	taint   map[int]bool // hosts with non-commuting concurrent calls not yet settled by a sequential add/remove
 	pending []burstCall  // the burst waiting for its `settle` line
+	mutLog  []mutRec     // which host every notifier call was about (by epoch)
 }
+
+type mutRec struct{ epoch, id int }
 
 // slot: one live iterator (op `open`)
 type slot struct {
@@ -66,6 +69,7 @@ type slot struct {
 	epoch   int
 	ended   bool
 	broken  bool
+	expOpen map[int]bool // the hosts the history expected when the iterator was created
 }
 
 type burstCall struct {
@@ -488,7 +492,7 @@ func (w *world) exec(op string) (res string) {
 		w.hot = false
 		w.lastPlain = nil
 		w.sessKs, w.ksMeta, w.injSess = "", map[string]string{}, false
-		w.slots, w.epoch, w.taint, w.pending = map[int]*slot{}, 0, map[int]bool{}, nil
+		w.slots, w.epoch, w.taint, w.pending, w.mutLog = map[int]*slot{}, 0, map[int]bool{}, nil, nil
 		if w.isTA {
 			w.pol = newTA(fb, f[5] == "1", f[6] == "1")
 			gocql.VerifTAInit(w.pol, "verif_session_ks")
@@ -527,6 +531,7 @@ func (w *world) exec(op string) (res string) {
 		}
 		w.lastPlain = nil
 		w.epoch++
+		w.mutLog = append(w.mutLog, mutRec{w.epoch, atoi(f[1])})
 		w.call(f[0], atoi(f[1]), h)
 		if f[0] == "add" || f[0] == "remove" {
 			delete(w.taint, atoi(f[1]))
@@ -753,6 +758,12 @@ func (w *world) exec(op string) (res string) {
 				sl.dupReps = true
 			}
 		}
+		sl.expOpen = map[int]bool{}
+		for id, h := range w.hosts {
+			if w.stat(id).expected(h.IsUp()) {
+				sl.expOpen[id] = true
+			}
+		}
 		w.lastPlain = nil
 		sl.it = w.pol.Pick(gocql.VerifQuery("ks"+f[2], rk))
 		w.slots[atoi(f[1])] = sl
@@ -816,6 +827,26 @@ func (w *world) exec(op string) (res string) {
 			if sl.ended && sl.epoch == w.epoch {
 				if v := w.oracle(sl.given, len(sl.head), sl.dupReps, sl.headAny, sl.fresh); v != "" {
 					return "crash:property violated on the real code: " + v + " offered=" + w.showIDs(sl.given)
+				}
+			}
+			if sl.ended && sl.epoch != w.epoch && !w.alias() && !w.hot {
+				// topology calls happened during the life of the iterator: a host that the history expected when the iterator
+				// was created, still expects, and that no call was about in between, must have been offered
+				touched := map[int]bool{}
+				for _, m := range w.mutLog {
+					if m.epoch > sl.epoch {
+						touched[m.id] = true
+					}
+				}
+				seen := map[*gocql.HostInfo]bool{}
+				for _, h := range sl.given {
+					seen[h] = true
+				}
+				for _, id := range w.sortedIDs() {
+					h := w.hosts[id]
+					if sl.expOpen[id] && !touched[id] && !w.taint[id] && w.stat(id).expected(h.IsUp()) && !seen[h] {
+						return fmt.Sprintf("crash:property violated on the real code: host %d was known and up during the whole life of the iterator (no call about it) but is not offered: offered=%s", id, w.showIDs(sl.given))
+					}
 				}
 			}
 		}
@@ -888,6 +919,7 @@ func (w *world) exec(op string) (res string) {
 		// quiescent: the history (in line order - for commuting calls every order gives the same status) ...
 		changedT := false
 		for _, c := range calls {
+			w.mutLog = append(w.mutLog, mutRec{w.epoch, c.id})
 			before := w.stat(c.id).known
 			w.record(c.call, c.id)
 			if w.stat(c.id).known != before {
@@ -1535,7 +1567,29 @@ func (g *gen) interleaveScenario(idx int) {
 		if g.ta {
 			tk = strconv.Itoa(r.Intn((g.n + 1) * 100))
 		}
-		switch (idx + round) % 5 {
+		switch (idx + round) % 6 {
+		case 5: // the cluster changes while an iterator is alive (no state change: that would end its life)
+			open(0, tk)
+			open(1, tk)
+			next(0, 1+r.Intn(2), "mutate-alive")
+			for k := 1 + r.Intn(2); k > 0; k-- {
+				id := 1 + r.Intn(g.n)
+				switch r.Intn(4) {
+				case 0:
+					g.emit(fmt.Sprintf("hdown %d", id), "hdown", true)
+				case 1:
+					g.emit(fmt.Sprintf("remove %d", id), "remove", true)
+				case 2:
+					g.emit(fmt.Sprintf("add %d", id), "add", true)
+				default:
+					if g.w.stat(id).known {
+						g.emit(fmt.Sprintf("hup %d", id), "hup", true)
+					}
+				}
+				next(r.Intn(2), 1, "mutate-alive")
+			}
+			next(0, 1000, "mutate-alive")
+			next(1, 1000, "mutate-alive")
 		case 0: // A1 B* A*
 			open(0, tk)
 			next(0, 1, "a1-b-a")
@@ -1574,7 +1628,7 @@ func (g *gen) interleaveScenario(idx int) {
 					done[sl] = next(sl, 1+r.Intn(2), "random3")
 				}
 			}
-		default: // A1 B1, then both drained
+		case 4: // A1 B1, then both drained
 			open(0, tk)
 			next(0, 1, "a1-b1-drain")
 			open(1, tk)
